@@ -3,7 +3,7 @@
 From Coq Require Import List Arith Lia Bool Ring Field String ZArith QArith Qabs Qcanon Reals.
 From PyOMA.Base Require Import Carrier FMat Cplx Argmin Show.
 From PyOMA.Model Require Import M_fdd.
-From PyOMA.Proofs Require Import P_fdd.
+From PyOMA.Proofs Require Import P_fdd P_spectral_compose.
 Import ListNotations.
 
 (* ---------------------------------------------------------------------------------------------------------------
@@ -208,6 +208,55 @@ Definition C06_full_statement : Prop :=
     = mac_den QcOps nr (vecC QcOps phi) (fun i => cconj QcOps (U idx i 0%nat)) /\
     (exists p, nth_error phi p = Some (c1 QcOps)).
 
+(* ---------------------------------------------------------------------------------------------------------------
+   G. composition with C13: the narrow-band clause stated from the DATA side.  The spectral matrix is no longer a
+   hypothesis but the modelled 'per' estimate M_spectra.sd_per (Welch: window w, twiddle table tw, nxseg n, step, nseg
+   segments) of data whose segment transforms at line k are a per-channel complex amplitude times a common factor,
+   X_c^s[k] = A_c Z^s[k] (the hypothesis of C13_per_common_factor).  Proofs/P_spectral_compose.v. *)
+Section H.
+Variable R:Type. Variable K:Ops R.
+Hypothesis Fth : field_theory (o0 K) (o1 K) (oadd K) (omul K) (osub K) (oopp K) (odiv K) (oinv K) (@eq R).
+
+(* the modelled matrix then has exactly the rank-one form C06_narrowband_collinear assumes, with the explicit real
+   factor g = dbl . scale . 1/K . sum_s |Z^s|^2 *)
+Theorem C06_welch_rank_one : forall tw w invn scale invK n step nseg (Y:M_spectra.rsig R) (A Z:nat -> C R) (k nch:nat),
+  (forall c s, (c < nch)%nat -> (s < nseg)%nat -> M_spectra.stft K tw w invn n step (Y c) s k = cmul K (A c) (Z s)) ->
+  forall i j, (i < nch)%nat -> (j < nch)%nat ->
+  M_spectra.sd_per K tw w invn scale invK n step nseg Y Y i j k
+  = cmul K (cofR K (omul K (omul K (omul K (M_spectra.dbl K n k) scale) invK) (sumn K nseg (fun s => cnorm2 K (Z s)))))
+           (cmul K (cconj K (A i)) (A j)).
+Proof. exact (welch_rank_one R K (F_R Fth)). Qed.
+
+(* hence, for ANY factorisation Sy = U[:, :nc] diag(sigma) Vh of that modelled matrix with sigma_q = 0 for q >= 1
+   (what an SVD of a rank-one matrix returns), the stored row 0 is collinear with the channels' amplitudes A - not
+   with conj A:  S_vec[0][i] A_i' = S_vec[0][i'] A_i *)
+Theorem C06_narrowband_from_welch : forall tw w invn scale invK n step nseg (Y:M_spectra.rsig R) (A Z:nat -> C R)
+    (k nr nc:nat) (U Vh:fmat (C R)) (sigma:nat -> R),
+  (0 < nc)%nat -> (nc <= nr)%nat ->
+  (forall c s, (c < nr)%nat -> (s < nseg)%nat -> M_spectra.stft K tw w invn n step (Y c) s k = cmul K (A c) (Z s)) ->
+  feq nr nc (fun i j => M_spectra.sd_per K tw w invn scale invK n step nseg Y Y i j k)
+      (fmul (COps K) nc U (fmul (COps K) nc (cdiag K sigma) Vh)) ->
+  (forall q, (0 < q < nc)%nat -> sigma q = o0 K) ->
+  forall i i' j, (i < nr)%nat -> (i' < nr)%nat -> (j < nc)%nat ->
+  cnorm2 K (cmul K (cofR K (sigma 0%nat)) (Vh 0%nat j)) <> o0 K ->
+  cmul K (svec_of K U 0%nat i) (A i') = cmul K (svec_of K U 0%nat i') (A i).
+Proof. exact (narrowband_from_welch R K Fth). Qed.
+
+(* ... i.e. MAC(stored row 0, amplitudes) = 1 (numerator = denominator) when some channel has a non-zero amplitude *)
+Theorem C06_narrowband_from_welch_mac : forall tw w invn scale invK n step nseg (Y:M_spectra.rsig R) (A Z:nat -> C R)
+    (k nr nc:nat) (U Vh:fmat (C R)) (sigma:nat -> R),
+  (0 < nc)%nat -> (nc <= nr)%nat ->
+  (forall c s, (c < nr)%nat -> (s < nseg)%nat -> M_spectra.stft K tw w invn n step (Y c) s k = cmul K (A c) (Z s)) ->
+  feq nr nc (fun i j => M_spectra.sd_per K tw w invn scale invK n step nseg Y Y i j k)
+      (fmul (COps K) nc U (fmul (COps K) nc (cdiag K sigma) Vh)) ->
+  (forall q, (0 < q < nc)%nat -> sigma q = o0 K) ->
+  forall i' j, (i' < nr)%nat -> (j < nc)%nat ->
+  cnorm2 K (A i') <> o0 K ->
+  cnorm2 K (cmul K (cofR K (sigma 0%nat)) (Vh 0%nat j)) <> o0 K ->
+  mac_num K nr (svec_of K U 0%nat) A = mac_den K nr (svec_of K U 0%nat) A.
+Proof. exact (narrowband_from_welch_mac R K Fth). Qed.
+End H.
+
 Print Assumptions C06_band_limits.
 Print Assumptions C06_fdd_pick_spec.
 Print Assumptions C06_fdd_pick_total.
@@ -228,6 +277,9 @@ Print Assumptions C06_narrowband_collinear.
 Print Assumptions C06_svalsvec_faithful_order_R.
 Print Assumptions C06_pick_sqrt_invariant_R.
 Print Assumptions C06_composed_R_partial.
+Print Assumptions C06_welch_rank_one.
+Print Assumptions C06_narrowband_from_welch.
+Print Assumptions C06_narrowband_from_welch_mac.
 
 (* non-vacuity 1: a 7-line grid, band [1,5) around 3/4 with DF = 1/2; the ratios on the band are 2,2,2,3 -> line 4; around 1/2 with DF = 1/2 the band [0,4) is all ties -> line 0; around
    1/2 with DF = 1/4 the band is [1,3) with the tie 2,2 -> the FIRST line 1; the shape is divided by its largest component *)
@@ -262,4 +314,28 @@ Example C06_example_svd :
   showRow (sqrt_resid [q 2 1; q 1 1] ex_S) = "0/1 0/1"%string /\
   showCRow (row0_action 2 2 (svec_l 2 ex_U) ex_Sy) = "12/5,0/1 0/1,-16/5"%string /\
   showCMat ex_Sy = "52/25,0/1 0/1,-36/25;0/1,36/25 73/25,0/1"%string.
+Proof. vm_compute. repeat split; reflexivity. Qed.
+
+(* non-vacuity 3 (composition with the spectral model): n = 4 twiddle table (omega = -i), periodic Hann [0,1/2,1,1/2], 50 %
+   overlap, 3 segments; channel 0 = cos(2 pi t/4), channel 1 = (4/3) sin(2 pi t/4): at line 1 the segment transforms are
+   A_c Z^s with A = (1, -4i/3), Z^s = the transform of channel 0 (non-zero).  The modelled 2 x 2 'per' matrix there is
+   [[4/3, -16i/9],[16i/9, 64/27]] = U diag(100/27, 0) U^H with the UNITARY U = [[3,4i],[4i,3]]/5 of non-vacuity 2 (all
+   residuals exactly zero), sigma_0 Vh[0][0] <> 0, and the stored row 0 = (3/5, -4i/5) is collinear with A. *)
+Definition ex_nb_Y : M_spectra.rsig Qc := fun c => if Nat.eqb c 0 then sc_ex_cos else sc_ex_sin43.
+Definition ex_nb_A : nat -> CQ := fun c => if Nat.eqb c 0 then (q 1 1, q 0 1) else (q 0 1, q (-4) 3).
+Definition ex_nb_stft (c s:nat) : CQ :=
+  M_spectra.stft QcOps (M_spectra.tw_of QcOps sc_ex_tw 4) (lget QcOps sc_ex_w) (q 1 4) 4 2 (ex_nb_Y c) s 1.
+Definition ex_nb_Sy : list (list CQ) :=
+  tab2 2 2 (fun i j => M_spectra.sd_per QcOps (M_spectra.tw_of QcOps sc_ex_tw 4) (lget QcOps sc_ex_w) (q 1 4) (q 2 3) (q 1 3) 4 2 3
+                         ex_nb_Y ex_nb_Y i j 1).
+Example C06_example_narrowband_from_welch :
+  forallb (fun c => forallb (fun s => sc_ceqb (ex_nb_stft c s) (cmul QcOps (ex_nb_A c) (ex_nb_stft 0 s))) (seq 0 3)) (seq 0 2) = true /\
+  forallb (fun s => negb (sc_ceqb (ex_nb_stft 0 s) (c0 QcOps))) (seq 0 3) = true /\
+  showCMat ex_nb_Sy = "4/3,0/1 0/1,-16/9;0/1,16/9 64/27,0/1"%string /\
+  showCMat (svd_resid 2 2 ex_nb_Sy ex_U ex_Vh [q 100 27; q 0 1]) = "0/1,0/1 0/1,0/1;0/1,0/1 0/1,0/1"%string /\
+  showCMat (unit_resid 2 ex_U) = "0/1,0/1 0/1,0/1;0/1,0/1 0/1,0/1"%string /\
+  sc_ceqb (cmul QcOps (cofR QcOps (q 100 27)) (fmatC ex_Vh 0%nat 0%nat)) (c0 QcOps) = false /\
+  showCRow (tab 2 (svec_of QcOps (fmatC ex_U) 0%nat)) = "3/5,0/1 0/1,-4/5"%string /\
+  sc_ceqb (cmul QcOps (svec_of QcOps (fmatC ex_U) 0%nat 0%nat) (ex_nb_A 1%nat))
+          (cmul QcOps (svec_of QcOps (fmatC ex_U) 0%nat 1%nat) (ex_nb_A 0%nat)) = true.
 Proof. vm_compute. repeat split; reflexivity. Qed.
